@@ -65,6 +65,65 @@ func e2Body(sc e2Scen) func() {
 	}
 }
 
+// e2GatedBody: link events are reported WHILE an earlier event is being
+// applied. The fake links L1 and L3 block inside the call the controller makes
+// on them while applying their established event (under its lock); a second
+// transport goroutine reports further events in those windows. The reports
+// are totally ordered (the second goroutine waits for the first to be inside
+// its callback), so the reference model is the sequential history
+// est:L1, est:L3, lose:L1, est:L4, lose:L4, whose final link set is {L3}.
+func e2GatedBody(probes int) func() {
+	return func() {
+		cfg := &tch.Config{
+			Links:   []tch.LinkSpec{{Name: "L1", UUID: 1, Remote: "A", Gated: true}, {Name: "L3", UUID: 2, Remote: "A", Gated: true}, {Name: "L4", UUID: 3, Remote: "A"}},
+			Lookups: []tch.LookupSpec{{Src: "", Dst: "A"}},
+		}
+		s := tch.New(cfg)
+		vsync.Quiesce()
+		s.Ready()
+		if b := s.Broken(); b != "" {
+			vsync.Logf("BROKEN %s", b)
+			s.Close()
+			return
+		}
+		var wg vsync.WaitGroup
+		for i := 0; i < probes; i++ {
+			wg.Add(1)
+			vsync.GoNamed(fmt.Sprintf("probe%d", i), func() {
+				defer wg.Done()
+				s.Probe()
+			})
+		}
+		l1, l3 := s.Link("L1"), s.Link("L3")
+		wg.Add(2)
+		vsync.GoNamed("transport1", func() {
+			defer wg.Done()
+			s.Apply("est:L1")
+		})
+		vsync.GoNamed("transport2", func() {
+			defer wg.Done()
+			<-vsync.R(l1.InApply)
+			vsync.Logf("events reported while est:L1 is applied")
+			s.Apply("est:L3")
+			s.Apply("lose:L1")
+			close(vsync.C(l1.Gate))
+			<-vsync.R(l3.InApply)
+			vsync.Logf("events reported while est:L3 is applied")
+			s.Apply("est:L4")
+			s.Apply("lose:L4")
+			close(vsync.C(l3.Gate))
+		})
+		wg.Wait()
+		vsync.Quiesce()
+		for _, v := range s.Check() {
+			vsync.Logf("V06:%s", v)
+		}
+		vsync.Logf("state %s", s.Canon())
+		s.Close()
+		vsync.Quiesce()
+	}
+}
+
 func exploreE2(t *testing.T, run *evid.Run, agg *mc.Agg) {
 	scens := []e2Scen{
 		{"est-lose", []string{"est:L1", "lose:L1"}, 1},
@@ -76,10 +135,24 @@ func exploreE2(t *testing.T, run *evid.Run, agg *mc.Agg) {
 		bound = 3
 		scens = append(scens, e2Scen{"est-lose-2probes", []string{"est:L1", "lose:L1"}, 2}, e2Scen{"est-est-lose-lose", []string{"est:L1", "est:L3", "lose:L1", "lose:L3"}, 1})
 	}
+	scens = append(scens, e2Scen{name: "events-reported-while-an-event-is-applied", probes: -1})
 	mc.RunScenarios(t, agg, len(scens), func(i int) *vsync.Config {
 		sc := scens[i]
+		body := e2Body(sc)
+		if sc.probes < 0 {
+			body = e2GatedBody(1)
+		}
 		return &vsync.Config{Name: "controller-e2/" + sc.name, Bound: bound, Delay: true, UnlockYield: true, DrainOnPrune: true, Deadline: run.Deadline(), MaxStep: 20000,
-			Body: e2Body(sc),
+			Body: body,
+			Observe: func(x *vsync.Exec) []string {
+				var tags []string
+				for _, l := range x.Log {
+					if strings.HasPrefix(l, "events reported while") {
+						tags = append(tags, l)
+					}
+				}
+				return tags
+			},
 			Check: func(x *vsync.Exec) string {
 				if x.HorizonHit || x.Deadlock {
 					return ""
